@@ -300,6 +300,7 @@ func scenarios(tier string) []scen {
 			{"adaptation-field variety (packets + data)", []int{7, 8}, []int{3, 2}},
 			{"split section headers + descriptor zoo", []int{9, 6}, []int{3, 1}},
 			{"short auto-detected inputs + demuxer packets", []int{10, 4}, []int{3, 2}},
+			{"pool capacity boundary + demuxer data", []int{11, 0}, []int{2, 1}},
 		}
 	}
 	return []scen{
@@ -310,6 +311,7 @@ func scenarios(tier string) []scen {
 		{"adaptation-field variety (packets + data)", []int{7, 8}, []int{2, 1}},
 		{"split section headers + descriptor zoo", []int{9, 6}, []int{1, 1}},
 		{"short auto-detected inputs + demuxer packets", []int{10, 4}, []int{1, 1}},
+		{"pool capacity boundary + demuxer data", []int{11, 0}, []int{1, 0}},
 	}
 }
 
